@@ -7,7 +7,7 @@ undoes with direct writes; R4 one SetIp per instruction, logged last."""
 from ..core import (callee_of, expr_walk, expr_str, return_defs, short, op_place, runtime_targets,
                     TRY_BRANCH, FROM_RESIDUAL, MissingAnchor)
 from .. import awrite, logfx
-from ..pathq import bool_branch, blocks_reaching, blocks_after, exists_path_avoiding
+from ..pathq import bool_branch, blocks_reaching, blocks_after, exists_path_avoiding, error_blocks
 
 EXPLANATION = (
     "Pairing rule over the MIR of every function the VM can reach at run time (call graph from fetch_and_run plus the "
@@ -394,7 +394,13 @@ def run(rep, facts, tier):
 
     check_rnext(rep, fx, arms, arm_writes)
     check_log_retention(rep, fx, W)
-    check_r4(rep, fx, W, far, reach, extra)
+    from .. import inline
+    V = inline.View(fx)
+    farv = V('state::State::fetch_and_run')     # helpers shared by several arms (unnamed in any rule) are looked through
+    Wv = dict(W)
+    if farv is not far:
+        Wv[far.name] = awrite.field_writes(fx, farv, tracked)
+    check_r4(rep, fx, Wv, farv, reach, extra)
 
 
 def check_rnext(rep, fx, arms, arm_writes):
@@ -529,6 +535,7 @@ def check_r4(rep, fx, W, far, reach, extra):
                 if st['k'] == 'assign' and st['rv']['k'] == 'discr' and st['rv'].get('adt') == 'opcodes::Opcode':
                     variants = dict(st['rv']['variants'])
     okret = [bb for (bb, i, cls, d) in return_defs(far) if cls == 'ok']
+    errs = error_blocks(far)
     errret = [bb for (bb, i, cls, d) in return_defs(far) if cls == 'err']
     ipw_blocks = set()
     redispatch = set()
@@ -563,7 +570,7 @@ def check_r4(rep, fx, W, far, reach, extra):
         key = 'C02.R4:arm:%s' % name
         # (a) no path tgt -> ok return avoiding ip-write blocks
         stop = ipw_blocks | redispatch
-        p = exists_path_avoiding(far, tgt, lambda b: b in okret, stop) if tgt not in stop else None
+        p = exists_path_avoiding(far, tgt, lambda b: b in okret, stop | errs) if tgt not in stop else None
         if p is not None:
             rep.add('C02.R4', key, False, 'arm %s can return Ok without set_ip/next_ip (path bb%s): rnext cannot find the instruction boundary'
                     % (name, '->bb'.join(map(str, p[:8]))), far.name, far.at(tgt))
